@@ -87,10 +87,22 @@ def spec_parse_frame(buf):
 
 
 def digest(data):
-    acc = 2166136261
+    ''' same as Model.Btpu.digest '''
+    acc = 5381
     for octet in data:
-        acc = (acc * 16777619 + octet) % 4294967296
+        acc = (acc * 33 + octet) & 0xFFFFFFFF
     return acc
+
+
+_BLOCKS = {}
+
+
+def gdata(seed, length):
+    ''' same as Model.Btpu.gdata: the 251-octet block mkdata(seed, 251) repeated '''
+    blk = _BLOCKS.get(seed)
+    if blk is None:
+        blk = _BLOCKS[seed] = mkdata(seed, 251)
+    return (blk * (length // 251 + 1))[:length]
 
 
 # ----------------------------------------------------------------------------------------------
@@ -397,19 +409,19 @@ def oracle_recv(data, obs):
 # Coq renderings
 
 class GenBytes(bytes):
-    ''' octets that are mkdata(seed, len): written into the Coq files as that call, not as a literal '''
+    ''' octets that are gdata(seed, len): written into the Coq files as that call, not as a literal '''
     seed = 0
 
 
 def gen_bytes(seed, length):
-    obj = GenBytes(mkdata(seed, length))
+    obj = GenBytes(gdata(seed, length))
     obj.seed = seed
     return obj
 
 
 def cb(data):
     if isinstance(data, GenBytes):
-        return '(mkdata %d%%N (N.to_nat %d%%N))' % (data.seed, len(data))
+        return '(gdata %d%%N %d%%N)' % (data.seed, len(data))
     if len(data) > 1500:
         raise ValueError('octet literal too long for a Coq case file')
     return coq_bytes(data)
@@ -728,7 +740,7 @@ class Runner(object):
 
     def check_send(self, case, frames, terminated):
         (mtu, xid, seed, length) = case
-        data = mkdata(seed, length)
+        data = gdata(seed, length)
         res = oracle_send(mtu, xid, data, frames, terminated)
         if res is None:
             return None
@@ -747,7 +759,7 @@ class Runner(object):
         (mtu, xid, seed, length, order) = case
         if obs is None:
             return None
-        why = oracle_recv(mkdata(seed, length), obs)
+        why = oracle_recv(gdata(seed, length), obs)
         if why:
             self.chk.fail('C20 / recv / ' + why.split('(')[0].strip()[:70],
                           'mtu=%d len=%d order=%s: %s' % (mtu, length, order, why),
@@ -756,7 +768,7 @@ class Runner(object):
 
     def impl_xfer(self, case):
         (mtu, xid, seed, length, order) = case
-        (frames, _term) = real_send(mtu, xid, mkdata(seed, length))
+        (frames, _term) = real_send(mtu, xid, gdata(seed, length))
         if sorted(order) != list(range(len(frames))):
             # not "each segment exactly once": the property says nothing; do not judge
             return (frames, None)
@@ -774,6 +786,13 @@ def canon_model_frame(entry):
 def run_all(chk):
     run = Runner(chk)
     rng = chk.rng
+    import time
+    t0 = [time.time()]
+
+    def lap(name):
+        if os.environ.get('VERIF_TIMING'):
+            print('# timing %s %.1fs' % (name, time.time() - t0[0]))
+        t0[0] = time.time()
 
     # ---- corpus: recorded witnesses first --------------------------------------------------
     corpus_send = []
@@ -789,38 +808,56 @@ def run_all(chk):
     codec_cases = gen_codec_cases(chk)
     codec_impl = [run.impl_codec(msgs, pad) for (msgs, pad) in codec_cases]
     keep = [pos for (pos, impl) in enumerate(codec_impl) if 'error' not in impl]
-    model = chk.coq_eval('codec', ['Model.Btpu'], [c_codec(*codec_cases[pos]) for pos in keep], 'run_codec', chunk=40)
+    def frame_size(pos):
+        return sum(len(case[5]) for case in codec_cases[pos][0])
+    small = [pos for pos in keep if frame_size(pos) <= BIG]
+    large = [pos for pos in keep if frame_size(pos) > BIG]
+    model_small = chk.coq_eval('codec', ['Model.Btpu'], [c_codec(*codec_cases[pos]) for pos in small], 'run_codec', chunk=40)
+    model_large = chk.coq_eval('codecbig', ['Model.Btpu'], [c_codec(*codec_cases[pos]) for pos in large], 'run_codec_big', chunk=2)
     encodings = []
-    for (pos, mod) in zip(keep, model):
+    for (pos, mod) in list(zip(small, model_small)) + list(zip(large, model_large)):
         (msgs, pad) = codec_cases[pos]
         impl = codec_impl[pos]
-        (m_wf, m_enc, m_lens, m_dec) = mod
-        m_enc = bytes(m_enc)
+        big = pos in large
         in_range = all(fits_field_ranges(case) for case in msgs)
-        kinds = tuple(case[0] if case[0] < 6 else 6 for case in msgs)
         chk.case(('codec', pos), nontrivial=bool(msgs) and (len(msgs) > 1 or bool(msgs[0][2]) or bool(pad)),
                  sample=samp(chk, 2, dict(suite='codec', msgs=[[c[0], c[1], [[h[0], h[1].hex()] for h in c[2]], c[3], c[4], c[5].hex()[:40]] for c in msgs][:3],
                                           pad=pad.hex(), frame=impl['enc'].hex()[:80])) if len(msgs) > 1 and msgs[0][2] else None)
         for case in msgs:
             chk.count('codec_msg_type', case[0] if case[0] < 6 else 'other')
             chk.count('codec_hints', len(case[2]) if len(case[2]) <= 4 else '>4')
+            chk.count('codec_payload_octets', '0' if not case[5] else ('1-255' if len(case[5]) < 256 else ('256-65535' if len(case[5]) < 65536 else '>=65536')))
         chk.count('codec_msgs_per_frame', len(msgs) if len(msgs) < 6 else '>=6')
-        replay = dict(suite='codec', msgs=[[c[0], c[1], [[h[0], h[1].hex()] for h in c[2]], c[3], c[4], c[5].hex()] for c in msgs], pad=pad.hex())
+        replay = dict(suite='codec', msgs=[[c[0], c[1], [[h[0], h[1].hex()] for h in c[2]], c[3], c[4],
+                                            (['gdata', c[5].seed, len(c[5])] if isinstance(c[5], GenBytes) else c[5].hex())] for c in msgs], pad=pad.hex())
         run.check_codec(msgs, pad, impl, replay)
-        encodings.append(impl['enc'])
-        # correspondence: encoder
-        if m_enc != impl['enc']:
-            run.note_mismatch('codec', 'case %d: model encoding differs from bytes(pkt) (%s.. vs %s..)' % (pos, m_enc.hex()[:48], impl['enc'].hex()[:48]))
-            continue
+        if not big:
+            encodings.append(impl['enc'])
         dis = impl['dis']
         too_many = len(msgs) > 100 or any(len(c[2]) > 100 for c in msgs)
         want_wf = in_range and not too_many and all(case[0] != 0 for case in msgs)
+        if big:
+            (m_wf, m_len, m_dig, m_lens, m_dec) = mod
+            enc_same = (m_len, m_dig) == (len(impl['enc']), digest(impl['enc']))
+        else:
+            (m_wf, m_enc, m_lens, m_dec) = mod
+            enc_same = bytes(m_enc) == impl['enc']
+        # correspondence: encoder
+        if not enc_same:
+            run.note_mismatch('codec', 'case %d: model encoding differs from bytes(pkt) (real %s..)' % (pos, impl['enc'].hex()[:48]))
+            continue
         if bool(m_wf) != want_wf:
             run.note_mismatch('codec', 'case %d: model well-formedness %s, expected %s' % (pos, m_wf, want_wf))
         # correspondence: decoder on the encoding
         if m_dec:
-            got = canon_model_frame(m_dec[0])
-            if not dis.get('valid') or got != (dis['msgs'], dis['pad'], dis['views']):
+            if big:
+                (g_msgs, g_pad) = m_dec[0]
+                got = ([(m[0], m[1], [(h[0], bytes(h[1])) for h in m[2]], m[3], m[4]) for m in g_msgs], bytes(g_pad))
+                real = ([(m[0], m[1], m[2], len(m[3]), digest(m[3])) for m in dis.get('msgs', [])], dis.get('pad'))
+            else:
+                got = canon_model_frame(m_dec[0])
+                real = (dis.get('msgs'), dis.get('pad'), dis.get('views'))
+            if not dis.get('valid') or got != real:
                 run.note_mismatch('codec', 'case %d: model decoding differs from the dissection' % pos)
             lens_real = [len(layer_bytes(item)) - 4 for item in bm.MessageSet(impl['enc']).msgs]
             if in_range and list(m_lens) != lens_real:
@@ -829,6 +866,7 @@ def run_all(chk):
             run.note_mismatch('codec', 'case %d: model rejects a frame the real code dissects cleanly' % pos)
     chk.obligation('correspondence:codec', not run.mismatch.get('codec'), '; '.join(run.mismatch.get('codec', [])[:3]))
 
+    lap('codec')
     # ---- (a') decode / re-encode of octet strings ------------------------------------------
     dec_cases = gen_decode_cases(chk, encodings)
     model = chk.coq_eval('decode', ['Model.Btpu'], [coq_bytes(item) for item in dec_cases], 'run_decode', chunk=60)
@@ -842,7 +880,8 @@ def run_all(chk):
                 chk.fail('C20 / decode / re-encoding differs', 'frame %s re-encodes to %s / %s' % (
                     octets.hex(), (dis['reenc'] or b'').hex(), dis['rebuilt'].hex()), dict(suite='decode', octets=octets.hex()))
         if mod:
-            (m_frame, m_reenc) = mod[0]
+            m_frame = mod[0][:3]
+            m_reenc = mod[0][3]
             if bytes(m_reenc) != octets:
                 run.note_mismatch('decode', '%s: model re-encoding differs' % octets.hex()[:60])
             if not dis.get('valid') or canon_model_frame(m_frame) != (dis['msgs'], dis['pad'], dis['views']):
@@ -851,12 +890,13 @@ def run_all(chk):
             run.note_mismatch('decode', '%s: model rejects a frame the real code dissects cleanly' % octets.hex()[:60])
     chk.obligation('correspondence:decode', not run.mismatch.get('decode'), '; '.join(run.mismatch.get('decode', [])[:3]))
 
+    lap('decode')
     # ---- (b) send ------------------------------------------------------------------------
     send_cases = corpus_send + gen_send_cases(chk)
     send_impl = []
     for case in send_cases:
         (mtu, xid, seed, length) = case
-        (frames, term) = real_send(mtu, xid, mkdata(seed, length))
+        (frames, term) = real_send(mtu, xid, gdata(seed, length))
         send_impl.append((frames, term))
         run.check_send(case, frames, term)
         nseg = len(frames)
@@ -883,11 +923,12 @@ def run_all(chk):
             run.note_mismatch('send', 'mtu=%s len=%d: frames differ (length/prefix/digest)' % (send_cases[pos][0], send_cases[pos][3]))
     chk.obligation('correspondence:send', not run.mismatch.get('send'), '; '.join(run.mismatch.get('send', [])[:3]))
 
+    lap('send')
     # ---- (c) receive: this sender's segments in every order ---------------------------------
     xfer_cases = []
     xfer_impl = []
     for (mtu, xid, seed, length, nperm) in gen_xfer_specs(chk):
-        data = mkdata(seed, length)
+        data = gdata(seed, length)
         (frames, term) = real_send(mtu, xid, data)
         run.check_send((mtu, xid, seed, length), frames, term)
         for order in expand_orders(rng, len(frames), nperm):
@@ -911,8 +952,9 @@ def run_all(chk):
             run.note_mismatch('recv', 'mtu=%d len=%d order=%s: model %s vs real %s' % (case[0], case[3], case[4], modl, real))
         elif obs['progress'] is not None and lst(obs['progress']) != lst(m_prog):
             run.note_mismatch('recv', 'order=%s: transfers in progress differ' % (case[4],))
-        if bool(m_same) != (len(obs['queue']) == 1 and obs['queue'][0][1] == mkdata(case[2], case[3])):
+        if bool(m_same) != (len(obs['queue']) == 1 and obs['queue'][0][1] == gdata(case[2], case[3])):
             run.note_mismatch('recv', 'order=%s: model and real disagree on "queued = bundle"' % (case[4],))
+    lap('xfer')
     # peer-crafted arrivals: quirks of the receive path (no verdict, correspondence only)
     recv_cases = gen_recv_cases(chk)
     model = chk.coq_eval('recv', ['Model.Btpu'], [c_recv(arr) for arr in recv_cases], 'run_recv', chunk=40)
@@ -930,6 +972,7 @@ def run_all(chk):
         elif obs['progress'] is not None and lst(obs['progress']) != lst(m_prog):
             run.note_mismatch('recv', 'crafted %s: transfers in progress differ: model %s real %s' % (
                 [(c, f.hex()[:40]) for (c, f) in arrival], m_prog, obs['progress']))
+    lap('recv')
     chk.obligation('correspondence:recv', not run.mismatch.get('recv'), '; '.join(run.mismatch.get('recv', [])[:3]))
     return run
 
@@ -943,18 +986,19 @@ def search_more(chk):
     chk.tier = 'thorough'
     try:
         for case in gen_send_cases(chk):
-            (frames, term) = real_send(case[0], case[1], mkdata(case[2], case[3]))
+            (frames, term) = real_send(case[0], case[1], gdata(case[2], case[3]))
             if run.check_send(case, frames, term):
                 found = True
         for (mtu, xid, seed, length, nperm) in gen_xfer_specs(chk):
-            (frames, _term) = real_send(mtu, xid, mkdata(seed, length))
+            (frames, _term) = real_send(mtu, xid, gdata(seed, length))
             for order in expand_orders(chk.rng, len(frames), nperm):
                 obs = real_recv([(1, frames[pos]) for pos in order])
                 if run.check_xfer((mtu, xid, seed, length, order), obs):
                     found = True
         for (pos, (msgs, pad)) in enumerate(gen_codec_cases(chk)):
             impl = run.impl_codec(msgs, pad)
-            replay = dict(suite='codec', msgs=[[c[0], c[1], [[h[0], h[1].hex()] for h in c[2]], c[3], c[4], c[5].hex()] for c in msgs], pad=pad.hex())
+            replay = dict(suite='codec', msgs=[[c[0], c[1], [[h[0], h[1].hex()] for h in c[2]], c[3], c[4],
+                                                (['gdata', c[5].seed, len(c[5])] if isinstance(c[5], GenBytes) else c[5].hex())] for c in msgs], pad=pad.hex())
             if run.check_codec(msgs, pad, impl, replay):
                 found = True
     finally:
@@ -972,7 +1016,7 @@ def replay(chk, path):
     if suite == 'send':
         case = obj['case']
         case = (case[0], case[1], case[2], case[3])
-        (frames, term) = real_send(case[0], case[1], mkdata(case[2], case[3]))
+        (frames, term) = real_send(case[0], case[1], gdata(case[2], case[3]))
         print('replay send mtu=%s xid=%d seed=%d len=%d -> %d frame(s) sizes %s' % (
             case + (len(frames), [len(f) for f in frames][:8])))
         why = run.check_send(case, frames, term)
@@ -984,7 +1028,8 @@ def replay(chk, path):
             case[0], case[3], case[4], [n for (n, _r) in obs['trace']], [len(d) for (_b, d) in obs['queue']]))
         why = run.check_xfer(case, obs)
     elif suite == 'codec':
-        msgs = [(m[0], m[1], [(h[0], bytes.fromhex(h[1])) for h in m[2]], m[3], m[4], bytes.fromhex(m[5])) for m in obj['msgs']]
+        msgs = [(m[0], m[1], [(h[0], bytes.fromhex(h[1])) for h in m[2]], m[3], m[4],
+                 gen_bytes(m[5][1], m[5][2]) if isinstance(m[5], list) else bytes.fromhex(m[5])) for m in obj['msgs']]
         pad = bytes.fromhex(obj['pad'])
         impl = run.impl_codec(msgs, pad)
         print('replay codec -> %s' % (impl.get('enc', b'').hex()[:120],))
@@ -1018,6 +1063,9 @@ def main():
         print('model evaluation failed: %s' % str(err)[:1500])
         chk.obligation('correspondence:model-evaluation', False, str(err)[:600])
         broken_tie = True
+    for (name, okay, detail) in chk.obligations:
+        if not okay:
+            print('# broken: %s: %s' % (name, detail[:1200]))
     broken = [name for (name, okay, _d) in chk.obligations if not okay]
     if broken and not any(not no_input for (_s, _w, _p, no_input) in chk.violations):
         search_more(chk)
